@@ -39,12 +39,12 @@ TOL = 1e-6
 
 
 def examples(tier):
-    return 800 if tier == "quick" else 16000
+    return 1600 if tier == "quick" else 24000
 
 
 @st.composite
 def strategy(draw, tier="quick"):
-    kind = draw(st.sampled_from(["perm", "dead", "split", "similarity", "eps", "rescale", "perturb", "perturb", "perturb", "none", "none"]))
+    kind = draw(st.sampled_from(["perm", "dead", "split", "similarity", "eps", "rescale", "perturb", "perturb", "perturb", "none", "none", "newsym", "deadsym"]))
     special = draw(st.integers(0, 11))
     m = draw(gen.automaton(regime="QQ", max_states=4, max_arcs=7, pool="int", boost=(special > 2)))
     # dyadic weights for pairs, tenths for single automata
@@ -56,6 +56,15 @@ def strategy(draw, tier="quick"):
         a[3] = "1/8" if a[1] == "" else draw(st.sampled_from(pool))
     for s in m["start"] + m["stop"]:
         s[1] = draw(st.sampled_from(pool + ["2"]))
+    if draw(st.integers(0, 3)) == 0:
+        # signed weights (the statement says real-weighted): flip the sign of some non-epsilon weights
+        for a in m["arcs"]:
+            if a[1] != "" and draw(st.integers(0, 2)) == 0:
+                a[3] = F(-Fraction(a[3]))
+        for s in m["start"] + m["stop"]:
+            if draw(st.integers(0, 2)) == 0:
+                s[1] = F(-Fraction(s[1]))
+        m["signed"] = True
     if special == 0:
         m["start"] = []
     elif special == 1:
@@ -171,6 +180,24 @@ def transform(m, kind, k, d):
         b["start"] = [[q, F(w)] for q, w in alpha.items() if w != 0]
         b["stop"] = [[q, F(w)] for q, w in beta.items() if w != 0]
         return b
+    if kind in ("newsym", "deadsym"):
+        # an arc labelled with a symbol the other automaton does not know: between two live states
+        # (the languages differ on a string containing it) or into a fresh dead state (equivalent)
+        A = RA.from_case(model("QQ"), m)
+        from vf.props.c13 import live_states
+
+        live = sorted(live_states(A))
+        if not live:
+            return b
+        q = A.names[live[k % len(live)]]
+        if kind == "newsym":
+            r = A.names[live[(k // 3) % len(live)]]
+            b["arcs"].append([q, "c", r, "1/2"])
+        else:
+            b["states"].append(400)
+            b["arcs"].append([q, "c", 400, "1/2"])
+            b["arcs"].append([400, "a", 400, "1/4"])
+        return b
     if kind == "perturb":
         # change one weight that lies on an accepting path
         A = RA.from_case(model("QQ"), m)
@@ -212,11 +239,11 @@ def float_case(c):
     return c
 
 
-def well_conditioned(A, rank, n):
+def well_conditioned(A, rank, n, sigma=("a", "b")):
     import numpy as np
 
     W = autoref.Weights(A)
-    S = gen.all_strings(["a", "b"], min(n, 3))
+    S = gen.all_strings(list(sigma), min(n, 3 if len(sigma) <= 2 else 2))
     H = np.array([[float(W(u + v)) for v in S] for u in S])
     sv = np.linalg.svd(H, compute_uv=False)
     if rank == 0:
@@ -226,64 +253,47 @@ def well_conditioned(A, rank, n):
     return sv[rank - 1] > 1e-3 * sv[0]
 
 
-def check(case, ctx):
-    Q = model("QQ")
-    Fm = model("FLOAT")
-    cA = float_case(case["m"])
-    A = RA.from_case(Q, cA)
-    ctx.cls("kind:" + case["kind"], *gen.classify_automaton(case["m"]))
-    cB = transform(case["m"], case["kind"], case["k"], case["d"])
+def _sigma(*cases):
+    return sorted({a[1] for c in cases for a in c["arcs"] if a[1] != ""} | {"a", "b"})
 
-    mA = ctx.call("build", lib_wfsa, Fm, case["m"], "field")
-    if isinstance(mA, LibRaised):
-        return
 
-    # ---------------- minimisation
+def check_min(ctx, tag, cm, mA, A):
+    "min terminates, has exactly Hankel-rank many states and the same language"
     rank = autoref.hankel_rank(A)
     if rank < A.n:
         ctx.nontrivial = True
         ctx.cls("rank<states")
-    if not well_conditioned(A, rank, A.n):
+    sig = _sigma(cm)
+    if not well_conditioned(A, rank, A.n, sig):
         ctx.cls("discarded:ill_conditioned")
-    else:
-        def run():
-            with CallBudget({"proj"}, 5000):
-                return mA.min
-
-        try:
-            mn = ctx.call("min", run)
-        except CallBudget.Exceeded as e:
-            ctx.fail("min|budget", f"min did not return within the call budget: {e}")
-            mn = LibRaised(e)
-        if not isinstance(mn, LibRaised):
-            ctx.check("min|dim", mn.dim == rank, lambda: f"min has {mn.dim} states, exact Hankel rank is {rank} (input {A.n} states)")
-            W = autoref.Weights(A)
-            for xs in gen.all_strings(["a", "b"], min(2 * A.n + 1, 5)):
-                have = ctx.call("min.call", mn, xs)
-                if isinstance(have, LibRaised):
-                    break
-                want = float(W(xs))
-                if not ctx.check("min|language", isinstance(have, (int, float)) and not math.isnan(have) and abs(have - want) <= TOL * max(1.0, abs(want)), lambda: f"min(xs={xs}) = {have}, input automaton gives {want}"):
-                    break
-
-    # ---------------- equivalence
-    if cB is None:
-        cB, same_by_construction = case["m"], True
-    B = RA.from_case(Q, float_case(cB))
-    mB = ctx.call("build", lib_wfsa, Fm, cB, "field")
-    if isinstance(mB, LibRaised):
         return
-    wit = autoref.equivalent(A, B)
+
+    def run():
+        with CallBudget({"proj"}, 5000):
+            return mA.min
+
+    try:
+        mn = ctx.call("min", run)
+    except CallBudget.Exceeded as e:
+        ctx.fail("min|budget", f"min did not return within the call budget: {e}")
+        return
+    if isinstance(mn, LibRaised):
+        return
+    ctx.check("min|dim", mn.dim == rank, lambda: f"[{tag}] min has {mn.dim} states, exact Hankel rank is {rank} (input {A.n} states)")
+    W = autoref.Weights(A)
+    for xs in gen.all_strings(sig, min(2 * A.n + 1, 5 if len(sig) <= 2 else 4)):
+        have = ctx.call("min.call", mn, xs)
+        if isinstance(have, LibRaised):
+            break
+        want = float(W(xs))
+        if not ctx.check("min|language", isinstance(have, (int, float)) and not math.isnan(have) and abs(have - want) <= TOL * max(1.0, abs(want)), lambda: f"[{tag}] min(xs={xs}) = {have}, input automaton gives {want}"):
+            break
+
+
+def check_equiv(ctx, tag, mA, mB, A, B, wit):
+    "A.counterexample(B), A == B and hash against the exact verdict `wit` (None = equivalent)"
     WA, WB = autoref.Weights(A), autoref.Weights(B)
-    if wit is not None:
-        va, vb = float(WA(wit)), float(WB(wit))
-        if abs(va - vb) <= 1e-4 * max(1.0, abs(va), abs(vb)):
-            ctx.cls("discarded:tiny_difference")
-            return
-        ctx.nontrivial = True
-        ctx.cls("truth:different")
-    else:
-        ctx.cls("truth:equivalent")
+
     def run_ce():
         with CallBudget({"proj"}, 5000):
             return mA.counterexample(mB)
@@ -292,23 +302,61 @@ def check(case, ctx):
     if isinstance(ce, LibRaised):
         return
     if wit is None:
-        ctx.check("counterexample|spurious", ce is None, lambda: f"equivalent automata, but counterexample {ce} was reported")
+        ctx.check("counterexample|spurious", ce is None, lambda: f"[{tag}] equivalent automata, but counterexample {ce} was reported")
     else:
-        ctx.check("counterexample|missed", ce is not None, lambda: f"automata differ on {wit} ({float(WA(wit))} vs {float(WB(wit))}) but no counterexample was found")
+        ctx.check("counterexample|missed", ce is not None, lambda: f"[{tag}] automata differ on {wit} ({float(WA(wit))} vs {float(WB(wit))}) but no counterexample was found")
     if ce is not None:
         w, va, vb = ce
         xs = ctx.call("decode", decode, w)
         if not isinstance(xs, LibRaised):
             ta, tb = float(WA(xs)), float(WB(xs))
-            ctx.check("counterexample|weights", abs(va - ta) <= TOL * max(1, abs(ta)) and abs(vb - tb) <= TOL * max(1, abs(tb)), lambda: f"counterexample {xs}: reported ({va}, {vb}), true weights ({ta}, {tb})")
-            ctx.check("counterexample|differs", abs(ta - tb) > 1e-9, lambda: f"counterexample {xs} does not separate the automata: both give {ta}")
+            ctx.check("counterexample|weights", abs(va - ta) <= TOL * max(1, abs(ta)) and abs(vb - tb) <= TOL * max(1, abs(tb)), lambda: f"[{tag}] counterexample {xs}: reported ({va}, {vb}), true weights ({ta}, {tb})")
+            ctx.check("counterexample|differs", abs(ta - tb) > 1e-9, lambda: f"[{tag}] counterexample {xs} does not separate the automata: both give {ta}")
+
     def run_eq():
         with CallBudget({"proj"}, 5000):
             return mA == mB
 
     eq = ctx.call("__eq__", run_eq)
     if not isinstance(eq, LibRaised):
-        ctx.check("eq|truth", bool(eq) == (wit is None), lambda: f"A == B is {eq}, exact equivalence is {wit is None} (witness {wit})")
+        ctx.check("eq|truth", bool(eq) == (wit is None), lambda: f"[{tag}] A == B is {eq}, exact equivalence is {wit is None} (witness {wit})")
         if eq:
             ha, hb = ctx.call("hash", hash, mA), ctx.call("hash", hash, mB)
             ctx.check("hash|eq", ha == hb, "equal automata with different hashes")
+
+
+def check(case, ctx):
+    Q = model("QQ")
+    Fm = model("FLOAT")
+    cA = float_case(case["m"])
+    A = RA.from_case(Q, cA)
+    ctx.cls("kind:" + case["kind"], "signed_weights" if case["m"].get("signed") else None, *gen.classify_automaton(case["m"]))
+    cB = transform(case["m"], case["kind"], case["k"], case["d"])
+
+    mA = ctx.call("build", lib_wfsa, Fm, case["m"], "field")
+    if isinstance(mA, LibRaised):
+        return
+    check_min(ctx, "A", case["m"], mA, A)
+
+    if cB is None:
+        cB = case["m"]
+    B = RA.from_case(Q, float_case(cB))
+    mB = ctx.call("build", lib_wfsa, Fm, cB, "field")
+    if isinstance(mB, LibRaised):
+        return
+    if case["kind"] != "none":
+        # the transformed automaton (useless states, split states, signed similarity, extra symbol)
+        check_min(ctx, "B", cB, mB, B)
+    wit = autoref.equivalent(A, B)
+    if wit is not None:
+        va, vb = float(autoref.Weights(A)(wit)), float(autoref.Weights(B)(wit))
+        if abs(va - vb) <= 1e-4 * max(1.0, abs(va), abs(vb)):
+            ctx.cls("discarded:tiny_difference")
+            return
+        ctx.nontrivial = True
+        ctx.cls("truth:different")
+    else:
+        ctx.cls("truth:equivalent")
+    check_equiv(ctx, "A vs B", mA, mB, A, B, wit)
+    if case["kind"] != "none":
+        check_equiv(ctx, "B vs A", mB, mA, B, A, wit)
